@@ -174,7 +174,7 @@ func (l *Lab) Gen(r *rand.Rand, o LabOpts) *LabCase {
 			}
 			c.Val = l.value(r, api, name, i, o.Hostile)
 			if r.IntN(8) == 0 {
-				c.Via = []string{"helper", "closure", "subpkg", "goroutine", "direct-nontest"}[r.IntN(5)]
+				c.Via = []string{"helper", "closure", "subpkg", "goroutine", "direct-nontest", "direct-othertest"}[r.IntN(6)]
 			}
 			n.Calls = append(n.Calls, c)
 		}
@@ -420,6 +420,7 @@ type Seeded struct {
 	LiveElsewhere int             // stale entries whose id is live in another file
 	Torn          map[string]bool // files that were given an unterminated tail entry
 	Loose         int             // files laid out with runs of blank lines between entries
+	Links         int             // stale snapshot files that are symbolic links
 }
 
 // AllowedListings counts, per id, in how many addressed files the id is present
@@ -569,6 +570,22 @@ func (l *Lab) Seed(r *rand.Rand, own *Owned, o LabOpts) *Seeded {
 				os.WriteFile(p, []byte("contains .snap in the middle of its name"), 0o644)
 				sd.StaleFiles[p] = true
 				sd.InScopeOdd[p] = true
+			}
+			if r.IntN(4) == 0 {
+				// a stale snapshot file that is a symbolic link (shared between packages, or left
+				// behind): a directory entry like any other; its target lies outside every
+				// visited directory and must stay as it is
+				un := filepath.Join(l.Src, "snaps_unvisited")
+				os.MkdirAll(un, 0o755)
+				target := filepath.Join(un, "linked_elsewhere.snap")
+				os.WriteFile(target, []byte(vkit.RenderSnapFile([]vkit.SnapEntry{{ID: "TestZStale - 1", Body: "behind a link"}})), 0o644)
+				sd.Decoys[target] = true
+				p := filepath.Join(d, "zlinked_test.snap")
+				os.Remove(p)
+				if os.Symlink(target, p) == nil {
+					sd.StaleFiles[p] = true
+					sd.Links++
+				}
 			}
 			for _, dn := range []string{"notes.txt", "snap.bak", "README"} {
 				if r.IntN(2) == 0 {
